@@ -323,3 +323,283 @@ theorem lexLoop_err (hb : Bool) (pop : List Ind) (total : Nat) (order : List Nat
 
 end SelLemmas
 end Uec
+
+namespace Uec
+namespace SelLemmas
+
+/-! ### Lexicase: the loops compute the Spec (`survivors`) -/
+
+/-- value of individual `i` on case `c`, oriented so that bigger is better (0 if missing) -/
+def cval (hb : Bool) (pop : List Ind) (c i : Nat) : Int :=
+  match resultAt pop i c with
+  | some r => if hb then r else -r
+  | none => 0
+
+theorem resCmp_eq (hb : Bool) (x y : Int) :
+    resCmp hb x y = compare (if hb then x else -x) (if hb then y else -y) := by
+  cases hb
+  · simp only [resCmp, Bool.false_eq_true, if_false]
+    rcases Int.lt_trichotomy x y with h | h | h
+    · rw [Int.compare_eq_gt.mpr h, Int.compare_eq_gt.mpr (by omega)]
+    · subst h; simp
+    · rw [Int.compare_eq_lt.mpr h, Int.compare_eq_lt.mpr (by omega)]
+  · simp [resCmp]
+
+theorem resCmp_ne_gt (hb : Bool) (x y : Int) :
+    (resCmp hb x y != .gt) = decide ((if hb then x else -x) ≤ (if hb then y else -y)) := by
+  rw [resCmp_eq]
+  generalize (if hb then x else -x) = a
+  generalize (if hb then y else -y) = b
+  by_cases hab : a ≤ b
+  · have : compare a b ≠ .gt := fun hc => by have := Int.compare_eq_gt.mp hc; omega
+    simp [hab, this]
+  · have : compare a b = .gt := Int.compare_eq_gt.mpr (by omega)
+    simp [hab, this]
+
+/-- all of `l` have a result for case `c` -/
+def HasCase (pop : List Ind) (c : Nat) (l : List Nat) : Prop := ∀ i ∈ l, (resultAt pop i c).isSome = true
+
+theorem filterBest_eq (hb : Bool) (pop : List Ind) (c : Nat) (cands : List Nat) (h : HasCase pop c cands) :
+    filterBest hb pop c cands = cands.filter (fun i => cands.all fun j => decide (cval hb pop c j ≤ cval hb pop c i)) := by
+  simp only [filterBest]
+  apply List.filter_congr
+  intro i hi
+  obtain ⟨ri, hri⟩ := Option.isSome_iff_exists.mp (h i hi)
+  rw [Bool.eq_iff_iff, List.all_eq_true, List.all_eq_true]
+  constructor
+  · intro hall j hj
+    obtain ⟨rj, hrj⟩ := Option.isSome_iff_exists.mp (h j hj)
+    have := hall j hj
+    simp only [hri, hrj, resCmp_ne_gt] at this
+    simpa [cval, hri, hrj] using this
+  · intro hall j hj
+    obtain ⟨rj, hrj⟩ := Option.isSome_iff_exists.mp (h j hj)
+    have := hall j hj
+    simp only [cval, hri, hrj] at this
+    simpa [hri, hrj, resCmp_ne_gt] using this
+
+theorem filterBest_sub (hb : Bool) (pop : List Ind) (c : Nat) (cands : List Nat) :
+    ∀ i ∈ filterBest hb pop c cands, i ∈ cands := fun i hi => (List.mem_filter.mp hi).1
+
+theorem survivors_sub (hb : Bool) (pop : List Ind) (order : List Nat) :
+    ∀ (cands : List Nat), ∀ i ∈ survivors hb pop order cands, i ∈ cands := by
+  induction order with
+  | nil => intro cands _ hi; exact hi
+  | cons c cs ih =>
+    intro cands i hi
+    simp only [survivors, List.foldl_cons] at hi
+    exact filterBest_sub hb pop c cands i (ih _ i hi)
+
+theorem survivors_cons (hb : Bool) (pop : List Ind) (c : Nat) (cs cands : List Nat) :
+    survivors hb pop (c :: cs) cands = survivors hb pop cs (filterBest hb pop c cands) := by
+  simp [survivors]
+
+theorem filterBest_single (hb : Bool) (pop : List Ind) (c x : Nat) : filterBest hb pop c [x] = [x] := by
+  simp only [filterBest, List.filter_cons, List.filter_nil, List.all_cons, List.all_nil, Bool.and_true]
+  cases h : resultAt pop x c with
+  | none => simp
+  | some r =>
+    have : resCmp hb r r ≠ .gt := by rw [resCmp_eq]; intro hc; have := Int.compare_eq_gt.mp hc; omega
+    simp [this]
+
+theorem survivors_single (hb : Bool) (pop : List Ind) (order : List Nat) (x : Nat) :
+    survivors hb pop order [x] = [x] := by
+  induction order with
+  | nil => rfl
+  | cons c cs ih => rw [survivors_cons, filterBest_single, ih]
+
+/-- The inner loop computes the maximisers: invariant over the processed prefix `P`. -/
+theorem lexScan_eq (hb : Bool) (pop : List Ind) (total c : Nat) (l : List Nat) :
+    ∀ (P ws : List Nat) (best : Int), HasCase pop c l →
+      (∀ i ∈ P, cval hb pop c i ≤ (if hb then best else -best)) →
+      ws = P.filter (fun i => decide (cval hb pop c i = (if hb then best else -best))) → ws ≠ [] →
+      ∃ best', lexScan hb pop total c l (ws, best) =
+        .ok ((P ++ l).filter (fun i => (P ++ l).all fun j => decide (cval hb pop c j ≤ cval hb pop c i)), best') := by
+  induction l with
+  | nil =>
+    intro P ws best _ hle hws hne
+    refine ⟨best, ?_⟩
+    simp only [lexScan, List.append_nil]
+    congr 2
+    rw [hws]
+    apply List.filter_congr
+    intro i hi
+    obtain ⟨i0, hi0⟩ := List.exists_mem_of_ne_nil _ hne
+    rw [hws] at hi0
+    have h0 := List.mem_filter.mp hi0
+    have h0v : cval hb pop c i0 = (if hb then best else -best) := by simpa using h0.2
+    by_cases hv : cval hb pop c i = (if hb then best else -best)
+    · simp only [hv, decide_true]
+      symm
+      rw [List.all_eq_true]
+      intro j hj; simpa using hle j hj
+    · simp only [hv, decide_false]
+      symm
+      rw [Bool.eq_false_iff]
+      intro hall
+      rw [List.all_eq_true] at hall
+      have h1 := hall i0 h0.1
+      have h2 := hle i hi
+      simp only [decide_eq_true_eq] at h1
+      omega
+  | cons j rest ih =>
+    intro P ws best hcase hle hws hne
+    have hj := hcase j (by simp)
+    have hrest : HasCase pop c rest := fun i hi => hcase i (List.mem_cons_of_mem _ hi)
+    cases hr : resultAt pop j c with
+    | none => simp [hr] at hj
+    | some r =>
+      have hcv : cval hb pop c j = (if hb then r else -r) := by simp [cval, hr]
+      simp only [lexScan, hr, resCmp_eq]
+      have happ : P ++ j :: rest = (P ++ [j]) ++ rest := by simp
+      rw [happ]
+      rcases Int.lt_trichotomy (if hb then r else -r) (if hb then best else -best) with hlt | heq | hgt
+      · rw [Int.compare_eq_lt.mpr hlt]
+        refine ih (P ++ [j]) ws best hrest ?_ ?_ hne
+        · intro i hi
+          rcases List.mem_append.mp hi with h | h
+          · exact hle i h
+          · simp at h; subst h; omega
+        · rw [List.filter_append, ← hws]
+          have : ¬ cval hb pop c j = (if hb then best else -best) := by omega
+          simp [this]
+      · rw [Int.compare_eq_eq.mpr heq]
+        refine ih (P ++ [j]) (ws ++ [j]) best hrest ?_ ?_ (by simp)
+        · intro i hi
+          rcases List.mem_append.mp hi with h | h
+          · exact hle i h
+          · simp at h; subst h; omega
+        · rw [List.filter_append, ← hws]
+          have : cval hb pop c j = (if hb then best else -best) := by omega
+          simp [this]
+      · rw [Int.compare_eq_gt.mpr hgt]
+        refine ih (P ++ [j]) [j] r hrest ?_ ?_ (by simp)
+        · intro i hi
+          rcases List.mem_append.mp hi with h | h
+          · have := hle i h; omega
+          · simp at h; subst h; omega
+        · rw [List.filter_append]
+          have h1 : P.filter (fun i => decide (cval hb pop c i = (if hb then r else -r))) = [] := by
+            rw [List.filter_eq_nil_iff]
+            intro i hi
+            have := hle i hi
+            simp only [decide_eq_true_eq]; omega
+          simp [h1, hcv]
+
+/-- **The loop computes the Spec**: on a non-empty candidate list whose members all have results
+    for the cases of `order`, the filtering loop (with its early exit on a single candidate)
+    returns exactly `survivors order cands`. -/
+theorem lexLoop_eq (hb : Bool) (pop : List Ind) (total : Nat) (order : List Nat) :
+    ∀ (cands : List Nat), cands ≠ [] → (∀ c ∈ order, HasCase pop c cands) →
+      lexLoop hb pop total order cands = .ok (survivors hb pop order cands) := by
+  induction order with
+  | nil => intro cands _ _; rfl
+  | cons c cs ih =>
+    intro cands hne hcase
+    match cands, hne, hcase with
+    | [], hne, _ => exact absurd rfl hne
+    | [x], _, _ => simp [lexLoop, survivors_single]
+    | first :: y :: rem, _, hcase =>
+      have hc := hcase c (by simp)
+      obtain ⟨r0, hr0⟩ := Option.isSome_iff_exists.mp (hc first (by simp))
+      have hcv : cval hb pop c first = (if hb then r0 else -r0) := by simp [cval, hr0]
+      obtain ⟨best', hscan⟩ := lexScan_eq hb pop total c (y :: rem) [first] [first] r0
+        (fun i hi => hc i (List.mem_cons_of_mem _ hi))
+        (by intro i hi; simp at hi; subst hi; omega)
+        (by simp [hcv]) (by simp)
+      simp only [lexLoop, hr0, hscan]
+      have hfb := filterBest_eq hb pop c (first :: y :: rem) hc
+      simp only [List.singleton_append] at hscan ⊢
+      rw [← hfb]
+      rw [survivors_cons]
+      have hsub := filterBest_sub hb pop c (first :: y :: rem)
+      refine ih _ ?_ ?_
+      · have := (lexScan_sub hb pop total c _ _ _ _ _ hscan).2 (by simp)
+        rw [← hfb] at this; exact this
+      · intro c' hc' i hi
+        exact hcase c' (List.mem_cons_of_mem _ hc') i (hsub i hi)
+
+
+theorem resCmp_ne_lt (hb : Bool) (x y : Int) :
+    (resCmp hb x y != .lt) = decide ((if hb then y else -y) ≤ (if hb then x else -x)) := by
+  rw [resCmp_eq]
+  generalize (if hb then x else -x) = a
+  generalize (if hb then y else -y) = b
+  by_cases hab : b ≤ a
+  · have : compare a b ≠ .lt := fun hc => by have := Int.compare_eq_lt.mp hc; omega
+    simp [hab, this]
+  · have : compare a b = .lt := Int.compare_eq_lt.mpr (by omega)
+    simp [hab, this]
+
+theorem resCmp_eq_gt (hb : Bool) (x y : Int) :
+    (resCmp hb x y == .gt) = decide ((if hb then y else -y) < (if hb then x else -x)) := by
+  rw [resCmp_eq]
+  generalize (if hb then x else -x) = a
+  generalize (if hb then y else -y) = b
+  by_cases hab : b < a
+  · simp [hab, Int.compare_eq_gt.mpr hab]
+  · have : compare a b ≠ .gt := fun hc => hab (Int.compare_eq_gt.mp hc)
+    simp [hab, this]
+
+/-- `dominates` in terms of the oriented values -/
+theorem dominates_cval (hb : Bool) (pop : List Ind) (n j i : Nat) (h : dominates hb pop n j i = true) :
+    (∀ c < n, cval hb pop c i ≤ cval hb pop c j) ∧ ∃ c < n, cval hb pop c i < cval hb pop c j := by
+  simp only [dominates, Bool.and_eq_true, List.all_eq_true, List.any_eq_true, List.mem_range] at h
+  obtain ⟨hall, c0, hc0, hgt⟩ := h
+  constructor
+  · intro c hc
+    have := hall c hc
+    cases hrj : resultAt pop j c with
+    | none => simp [hrj] at this
+    | some rj =>
+      cases hri : resultAt pop i c with
+      | none => simp [hrj, hri] at this
+      | some ri =>
+        simp only [hrj, hri, resCmp_ne_lt, decide_eq_true_eq] at this
+        simpa [cval, hrj, hri] using this
+  · refine ⟨c0, hc0, ?_⟩
+    cases hrj : resultAt pop j c0 with
+    | none => simp [hrj] at hgt
+    | some rj =>
+      cases hri : resultAt pop i c0 with
+      | none => simp [hrj, hri] at hgt
+      | some ri =>
+        simp only [hrj, hri, resCmp_eq_gt, decide_eq_true_eq] at hgt
+        simpa [cval, hrj, hri] using hgt
+
+/-- an individual that is at least as good as a survivor on every case survives too, and is then
+    equally good on every case -/
+theorem dom_survives (hb : Bool) (pop : List Ind) (j w : Nat) (order : List Nat) :
+    ∀ (cands : List Nat), (∀ c ∈ order, HasCase pop c cands) → j ∈ cands → w ∈ survivors hb pop order cands →
+      (∀ c ∈ order, cval hb pop c w ≤ cval hb pop c j) →
+      j ∈ survivors hb pop order cands ∧ ∀ c ∈ order, cval hb pop c j ≤ cval hb pop c w := by
+  induction order with
+  | nil => intro cands _ hj _ _; exact ⟨hj, by simp⟩
+  | cons c cs ih =>
+    intro cands hcase hj hw hle
+    rw [survivors_cons] at hw ⊢
+    have hwf := survivors_sub hb pop cs _ w hw
+    have hc := hcase c (by simp)
+    rw [filterBest_eq hb pop c cands hc] at hwf
+    obtain ⟨hwc, hwall⟩ := List.mem_filter.mp hwf
+    rw [List.all_eq_true] at hwall
+    have hjw : cval hb pop c j ≤ cval hb pop c w := by simpa using hwall j hj
+    have hwj := hle c (by simp)
+    have hjf : j ∈ filterBest hb pop c cands := by
+      rw [filterBest_eq hb pop c cands hc]
+      refine List.mem_filter.mpr ⟨hj, ?_⟩
+      rw [List.all_eq_true]
+      intro k hk
+      have : cval hb pop c k ≤ cval hb pop c w := by simpa using hwall k hk
+      simp only [decide_eq_true_eq]; omega
+    obtain ⟨h1, h2⟩ := ih (filterBest hb pop c cands)
+      (fun c' hc' i hi => hcase c' (List.mem_cons_of_mem _ hc') i (filterBest_sub hb pop c cands i hi))
+      hjf hw (fun c' hc' => hle c' (List.mem_cons_of_mem _ hc'))
+    refine ⟨h1, ?_⟩
+    intro c' hc'
+    rcases List.mem_cons.mp hc' with rfl | hc'
+    · exact hjw
+    · exact h2 c' hc'
+
+end SelLemmas
+end Uec
